@@ -14,6 +14,9 @@
 //	      the document
 //	T3   Model.TurtleOffsets (Lean driver, op offx.tok) vs the token producers of encoding/turtle and
 //	     encoding/trig through the verif hook VerifProduceOffsets (file tok.go)
+//	T3   Model.DecoderOpts (op offx.opts) vs the effective configuration NewDecoder compiles from an
+//	     option list, for every decoder with offset capture incl. N-Triples/N-Quads (file opts.go); the
+//	     oracle itself constructs every decoder from a permuted / split option list (specOf)
 package main
 
 import (
@@ -396,14 +399,21 @@ func realMain() int {
 				}
 			}
 		}
-		var tokLines []string
+		var tokLines, optLines []string
 		for _, l := range lines {
 			if j, ok := parseDocLine(l); ok {
 				want[j.format] = true
 				push(j)
 			} else if strings.HasPrefix(l, "offx.tok ") {
 				tokLines = append(tokLines, l)
+			} else if strings.HasPrefix(l, "offx.opts ") {
+				optLines = append(optLines, l)
 			}
+		}
+		if len(optLines) > 0 && !*nomodel {
+			n, f := runOptLines(rep, optLines)
+			compared += n
+			failures += f
 		}
 		if len(tokLines) > 0 && !*nomodel {
 			n, f := runTokLines(rep, tokLines)
@@ -526,6 +536,17 @@ func realMain() int {
 		}
 		compared += n
 		failures += f
+	}
+	// T3: option lists of every decoder with offset capture (opts.go)
+	if !*nomodel && *replay == "" && (*formats == "" || want["opts"]) {
+		n, f, err := runOpts(rep, g)
+		if err != nil {
+			fmt.Fprintln(os.Stderr, err)
+			return 2
+		}
+		compared += n
+		failures += f
+		rep.Exhaustive = append(rep.Exhaustive, "option lists (op offx.opts): for turtle, trig, ntriples, nquads, rdfjson, rdfxml, jsonld every chain of 1..3 setter calls over {SetCaptureTextOffsets(false|true), SetInitialTextOffset(2 values), and where the configuration has them SetDefaultBase(2), SetBlankNodeStringFactory(2), directive listeners(2)} in every split into consecutive option values; for htmldefaults and encoding/html DocumentConfig (through the RDFa decoder) every chain of 1..2")
 	}
 	rep.Compared = compared
 	flush(rep)
